@@ -413,6 +413,7 @@ def _remove_invalid_ckpts(
     os.path.join(dir_path, c)
     for c in checkpoint_files
     if c.match(f'{prefix}*')
+    and not c.match(f'{prefix}tmp')
     and not c.match(f'*{MP_ARRAY_POSTFIX}')
     and not c.match(f'*{ocp.utils.TMP_DIR_SUFFIX}*')
   ]
